@@ -377,18 +377,12 @@ func (m *{{ .Name }}) Delete(k {{ .KeyType }}) {
 }
 
 func (m *{{ .Name }}) delete(k {{ .KeyType }}) {
-var kk {{ .KeyType }}
-	i := -1
-
-	for i, kk = range m.order {
+	delete(m.data, k)
+	for i, kk := range m.order {
 		if kk == k {
+			m.order = append(m.order[:i], m.order[i+1:]...)
 			break
 		}
-	}
-
-	delete(m.data, k)
-	if i != -1 {
-		m.order = append(m.order[:i], m.order[i+1:]...)
 	}
 }
 
@@ -397,7 +391,9 @@ func (m *{{ .Name }}) Filter(fn filter{{ .CapitalizedName }}Func) {
 	m.mx.Lock()
 	defer m.mx.Unlock()
 
-	for _, k := range m.order {
+	// Iterate over a copy: delete compacts m.order in place.
+	order := append([]{{ .KeyType }}(nil), m.order...)
+	for _, k := range order {
 		if !fn(k, m.data[k]) {
 			m.delete(k)
 		}
